@@ -271,11 +271,11 @@ class RecIdle(IdleReleaseDecorator):
         self.rec.on_spawn(t, getattr(coro, "__name__", ""))
         return t
 
-    async def _release_idle_handler(self, run_id):
+    async def _release_idle_handler(self, run_id, *a, **k):
         self.rec.releasing.add(asyncio.current_task())
         self.rec.on_release(begin=True)
         try:
-            await super()._release_idle_handler(run_id)
+            await super()._release_idle_handler(run_id, *a, **k)
         finally:
             self.rec.releasing.discard(asyncio.current_task())
             self.rec.on_release(begin=False)
@@ -612,12 +612,12 @@ class Chain:
 
 
 # ------------------------------------------------------------------ scenarios
-MONITOR_ONLY = {"retrynudge"}
+MONITOR_ONLY = {"retrynudge", "idlenudge"}
 
 
 def gen_case(rng, kind=None):
     """ops: list of (time_units, op, payload), sorted by time."""
-    kinds = ["plain", "self", "retry", "retry2", "retrynudge", "waitretry", "waitfail", "wait", "waitresp", "crash", "boundary", "zero", "yield", "startup", "burst", "latency", "relrace"]
+    kinds = ["plain", "self", "retry", "retry2", "retrynudge", "waitretry", "waitfail", "wait", "waitresp", "crash", "boundary", "zero", "yield", "startup", "burst", "latency", "relrace", "idlenudge"]
     kind = kind or rng.choice(kinds)
     tau = rng.choice([8, 16, 32, 64, 96])
     y = 0
@@ -687,6 +687,11 @@ def gen_case(rng, kind=None):
         ops.append((t + rng.choice([1, 2, max(1, tau // 4)]), "resp", 900 + rng.randint(1, 9)))
         t += 3 * POLICY_delay + 4 * tau + 40
         ops.append((t, "send", plain_ev(fin=True)))
+    elif kind == "idlenudge":
+        # an event that nobody accepts reaches an IDLE run that is still in memory (between its idle announcement and its
+        # release): it is reported as unhandled - and the run, idle again, must be marked idle again and released
+        ops.append((t, "send", plain_ev(dur=0.0)))
+        ops.append((t + rng.choice([2, max(3, tau // 2), max(4, tau - 2)]), "resp", 900 + rng.randint(1, 9)))
     elif kind == "waitfail":
         # the run announces idle while a step waits with a timeout SHORTER than the idle timeout; the timeout wakes the
         # run by itself, the step then fails and its retry waits out a delay that ends after the first idle period
@@ -1164,7 +1169,7 @@ def run_suite(ctx, n, props, with_reference=0.35):
     conform value, issues (restricted to `props`)."""
     import core
     rng = random.Random(ctx.seed * 7919 + 11)
-    kinds = ["plain", "self", "retry", "retry2", "retrynudge", "waitretry", "waitfail", "wait", "waitresp", "crash", "boundary", "zero", "yield", "startup", "burst", "latency", "relrace"]
+    kinds = ["plain", "self", "retry", "retry2", "retrynudge", "waitretry", "waitfail", "wait", "waitresp", "crash", "boundary", "zero", "yield", "startup", "burst", "latency", "relrace", "idlenudge"]
     out, exprs, total = [], [], {}
     corpus = corpus_cases()
     for k in range(len(corpus) + n):
